@@ -34,7 +34,6 @@ def stepName : Step → String
   | .ret => "ret"
   | .raise => "raise"
   | .retrySleep => "retrySleep"
-  | .retryNoSleep => "retryNoSleep"
 
 def getOptBool (j : Json) (k : String) : Except String (Option Bool) :=
   match j.getObjVal? k with
